@@ -10,6 +10,9 @@ import (
 	"path/filepath"
 	"strings"
 	"sync"
+	"time"
+
+	"github.com/caddyserver/certmagic"
 
 	"verifharness/pkg/emit"
 )
@@ -48,6 +51,49 @@ func c06CountOps(o c06Obs) int {
 // failing (obtain, forced renewal, renewal of a due certificate by manage; one and two issuers; fresh
 // and reused key), followed by a fault-free manage. The property's first clause binds under storage
 // errors too: a reported success must have left a complete, matching, reloadable bundle.
+// c06RetryHistories: ObtainCertAsync / RenewCertAsync (doWithRetry; the closure ManageAsync, on-demand issuance
+// and forceRenew run too) with issuer outcomes [fail, ok], [fail, fail, ok], [fail, fail] per attempt, both
+// key-reuse settings, one and two issuers (incl. "first issuer fails in every attempt"), followed by manage.
+func c06RetryHistories() (ins []c06In, origins []string) {
+	dns := c06Subjects[0]
+	for _, reuse := range []bool{false, true} {
+		for _, n := range []int{1, 2} {
+			cfg := c06Cfg{N: n, Reuse: reuse, KeyType: "p256"}
+			all := func(o c06Outcome) c06Oracle {
+				outs := make([]c06Outcome, n)
+				for i := range outs {
+					outs[i] = o
+				}
+				return c06Oracle{Out: outs}
+			}
+			lastOnly := func(o c06Outcome) c06Oracle { // only the last issuer answers
+				outs := make([]c06Outcome, n)
+				outs[n-1] = o
+				return c06Oracle{Out: outs}
+			}
+			m := c06Hop{Op: "manage", Orc: all(c06Up(90, 0))}
+			pats := [][]c06Oracle{
+				{all(c06Down), all(c06Up(20, 0))},
+				{all(c06Down), all(c06Down), all(c06Up(20, 0))},
+				{all(c06Down), lastOnly(c06Up(20, 0))},
+				{all(c06Down), all(c06Down)},
+			}
+			for _, p := range pats {
+				// obtain from nothing
+				ins = append(ins, c06In{Cfg: cfg, Subj: dns, Steps: []c06Hop{
+					{Op: "obtain", Orc: p[0], More: p[1:]}, m, m}})
+				// forced renewal, and renewal of a due certificate
+				ins = append(ins, c06In{Cfg: cfg, Subj: dns, Steps: []c06Hop{
+					{Op: "manage", Orc: all(c06Up(10, 0))}, {Op: "renew", Force: true, Orc: p[0], More: p[1:]}, m}})
+				ins = append(ins, c06In{Cfg: cfg, Subj: dns, Steps: []c06Hop{
+					{Op: "manage", Orc: all(c06Up(10, 1))}, {Op: "renew", Orc: p[0], More: p[1:]}, m}})
+				origins = append(origins, "retry", "retry", "retry")
+			}
+		}
+	}
+	return ins, origins
+}
+
 // c06QuarantineBases: a certificate revoked for key compromise is replaced by manage; the marked step
 // is run with each Storage call of the quarantine (moveCompromisedPrivateKey: Load .key, Store
 // .key.compromised, Delete .key) failing - only those: a storage error inside the obtain that follows would
@@ -166,7 +212,7 @@ func c06Exec(in c06In, origin string) (res c06Result) {
 	issuances := 0
 	opsSeen := map[string]bool{}
 	symptom := "none"
-	faultedSteps, faultsHit := 0, 0
+	faultedSteps, faultsHit, retrySteps := 0, 0, 0
 	fwd, fwdSteps := true, 0
 	var prevSt []c06Entry
 	for si := range in.Steps {
@@ -221,6 +267,13 @@ func c06Exec(in c06In, origin string) (res c06Result) {
 		for _, f := range h.Fails {
 			e.Int(f)
 		}
+		e.Len(len(h.More))
+		for _, mo := range h.More {
+			c06EncOracle(e, mo)
+		}
+		if len(h.More) > 0 {
+			retrySteps++
+		}
 		c06EncObs(e, o)
 		obsAll = append(obsAll, o)
 		for _, ev := range o.logEnc {
@@ -249,6 +302,7 @@ func c06Exec(in c06In, origin string) (res c06Result) {
 	hist(fmt.Sprintf("issuances=%d", min(issuances, 6)))
 	hist("class=" + class)
 	hist("symptom=" + symptom)
+	hist(fmt.Sprintf("retrying_steps=%d", min(retrySteps, 3)))
 	hist(fmt.Sprintf("faulted_steps=%d", min(faultedSteps, 3)))
 	hist(fmt.Sprintf("faults_inside_the_operation=%d", min(faultsHit, 3)))
 	if in.Backend == "" {
@@ -264,7 +318,7 @@ func c06Exec(in c06In, origin string) (res c06Result) {
 		Desc: map[string]any{"class": class, "subject_kind": in.Subj.Kind, "issuers": in.Cfg.N, "reuse": in.Cfg.Reuse,
 			"policy_random": in.Cfg.Rnd, "keytype": in.Cfg.KeyType, "origin": origin, "steps": len(in.Steps),
 			"spelling_dirs_differ": bw.sLoad != bw.sSave, "symptom": symptom, "backend": in.Backend,
-			"faulted_steps": faultedSteps},
+			"faulted_steps": faultedSteps, "retrying_steps": retrySteps},
 		In: in, Obs: obsAll, Wire: e.String(),
 		Nontrivial: issuances >= 1 && len(in.Steps) >= 2, Key: string(key)}
 	return res
@@ -468,6 +522,8 @@ func c06Run(tier string, seed int64, outdir string, replay string) error {
 		c06RunCase(w, in, "replay")
 		return nil
 	}
+	// doWithRetry's back-off table is a package variable: milliseconds instead of minutes for this process
+	defer certmagic.VerifBundleSetRetryIntervals([]time.Duration{time.Millisecond, time.Millisecond})()
 	var ins []c06In
 	var origins []string
 	for _, in := range c06Corpus() {
@@ -493,6 +549,9 @@ func c06Run(tier string, seed int64, outdir string, replay string) error {
 			ins, origins = append(ins, in), append(origins, "error-sweep")
 		}
 	}
+	// the retrying entry points: first attempt(s) fail at the issuers after the key was generated, a later one succeeds
+	ins2, or2 := c06RetryHistories()
+	ins, origins = append(ins, ins2...), append(origins, or2...)
 	// storage errors inside the quarantine of a compromised key (forceRenew / moveCompromisedPrivateKey)
 	qbases, qtarget := c06QuarantineBases()
 	for bi, b := range qbases {
